@@ -227,15 +227,218 @@ Proof. exact (qr_solve_lsq_from_back_subst back_subst_spec). Qed.
 Example C01_qr_instance : snd (qr_mut ROps 2 1 ex_A) 0%nat = -5.
 Proof. exact qr_example. Qed.
 
+(* ============================ the body of svd_mut ============================ *)
+From SC Require Import C01.Proofs_svd_refl C01.Proofs_svd_bidiag C01.Proofs_svd_accum C01.Proofs_svd_sweep C01.Proofs_svd_iter.
+
+(* svd_mut = bidiagonalisation + accumulation (svd_stage1), then the iteration for k = n-1 .. 0
+   (svd_outer: split search, cancellation, implicit-shift sweep), then the tail svd_post. *)
+Theorem C01_svd_mut_stages : forall cs minpos m n (A : @Mx R),
+  svd_mut ROps 0 cs minpos m n A =
+  match svd_outer cs m n (snd (svd_stage1 cs minpos m n A)) (fst (svd_stage1 cs minpos m n A)) with
+  | None => None
+  | Some (st, _) => Some (svd_post ROps m n st)
+  end.
+Proof. exact svd_mut_eq. Qed.
+
+(* bidiag_step of the model is, term for term, its left half bd_left followed by its right half bd_right
+   (bd_left / bd_right / svd_stage1 / svd_outer are names for sub-terms of Model.v, introduced in the
+   proof files only so that theorems can be stated about them) *)
+Theorem C01_svd_step_halves : forall cs m n i (st : @bidiag_st R), (i < m)%nat ->
+  bidiag_step ROps cs m n i st =
+  let rv1 := updv (brv1 st) i (bscale st * bg st) in
+  let '(U1, g1, scale1) := bd_left cs m n i (bU st) in
+  let w := updv (bw st) i (scale1 * g1) in
+  let '(U2, rv2, g2, scale2) := bd_right cs m n i U1 rv1 in
+  mkBD (freeze ROps m n U2) (freezev ROps n w) (freezev ROps n rv2) g2 scale2
+       (omaxT ROps (banorm st) (Rabs (w i) + Rabs (rv2 i))).
+Proof. exact bidiag_step_eq. Qed.
+
+(* One step of the Householder bidiagonalisation, left half (column i), for EVERY work matrix W.
+   u = the stored column i from the diagonal down (zero padded), H = I + hinv u u^T with
+   hinv = 1 / (W1(i,i) * w_i) recovered exactly as the accumulation loop does.  The `scale == 0`
+   branch (column already zero from the diagonal down) is the case w_i = 0: then hinv = 0, H = I,
+   nothing is stored and the column stays zero; otherwise the pivot W1(i,i) is non-zero, H is an
+   orthogonal involution (hrefl_ok), it maps column i to w_i e_i and has been applied to the
+   columns to the right. *)
+Theorem C01_svd_left_reflection : forall cs m n i (W W1 : @Mx R) g1 sc1, cs_spec cs -> (i < m)%nat -> (i < n)%nat ->
+  bd_left cs m n i W = (W1, g1, sc1) ->
+  let u := colpad m i W1 in let wi := sc1 * g1 in let hinv := hinv_of (W1 i i) wi in
+  (forall r k, ~ ((i <= r < m)%nat /\ (i <= k < n)%nat) -> W1 r k = W r k) /\
+  (forall r k, (i < k < n)%nat -> W1 r k = hrefl m u hinv (fun r' => W r' k) r) /\
+  (forall r, hrefl m u hinv (fun r' => W r' i) r =
+             if Nat.eqb r i then wi else if ((i <? r) && (r <? m))%bool then 0 else W r i) /\
+  hrefl_ok m u hinv /\
+  (wi = 0 -> forall r, (i <= r < m)%nat -> W1 r i = 0) /\
+  (wi <> 0 -> W1 i i <> 0).
+Proof. exact bd_left_spec. Qed.
+(* ... and the right half (row i, columns i+1..n-1); `i + 1 = n` and `scale == 0` are the case e = 0. *)
+Theorem C01_svd_right_reflection : forall cs m n i (U1 W2 : @Mx R) rv1 rv2 g2 sc2, cs_spec cs -> (i < m)%nat -> (i < n)%nat ->
+  bd_right cs m n i U1 rv1 = (W2, rv2, g2, sc2) ->
+  let v := rowpad n i W2 in let e := sc2 * g2 in let hinv := hinv_of (W2 i (i + 1)%nat) e in
+  (forall r k, ~ ((i <= r < m)%nat /\ (i + 1 <= k < n)%nat) -> W2 r k = U1 r k) /\
+  (forall r k, (i < r < m)%nat -> W2 r k = hrefl n v hinv (fun k' => U1 r k') k) /\
+  (forall k, (k < n)%nat -> hrefl n v hinv (fun k' => U1 i k') k =
+             if Nat.eqb k (i + 1) then e else if ((i + 1 <? k) && (k <? n))%bool then 0 else U1 i k) /\
+  hrefl_ok n v hinv /\
+  (e = 0 -> forall k, (i + 1 <= k < n)%nat -> W2 i k = 0) /\
+  (forall t, (t <= i)%nat -> rv2 t = rv1 t).
+Proof. exact bd_right_spec. Qed.
+
+(* (a) The first stage of svd_mut, for every m >= n and every real matrix: after the n Householder
+   steps and the two accumulation loops, U (m x n) and V (n x n) have orthonormal columns (V also
+   orthonormal rows) and A = U B V^T with B the upper bidiagonal matrix (diagonal w, super-diagonal
+   rv1[1..]); rv1[0] = 0.  Hypothesis bd_regular: no bidiagonal entry is non-zero but smaller than
+   T::min_positive_value() in magnitude — the accumulation loops treat such an entry as zero (the
+   `g.abs() >= T::min_positive_value()` guards of commit 6e06fa0), which drops a reflector that the
+   bidiagonalisation did apply: see C01_svd_factorisation_full_statement_refuted. *)
+Theorem C01_svd_bidiagonalisation : forall cs minpos m n (A : @Mx R), cs_spec cs -> (n <= m)%nat -> 0 < minpos ->
+  bd_regular minpos n (svd_bd cs m n A) ->
+  let st := fst (svd_stage1 cs minpos m n A) in
+  orthocols m n (sU st) /\ orthocols n n (sV st) /\
+  (forall i k, (i < m)%nat -> (k < n)%nat -> UBVt n (sU st) (Bd (sw st) (srv1 st)) (sV st) i k = A i k) /\
+  srv1 st 0%nat = 0 /\ orthorows n (sV st).
+Proof. exact svd_stage1_correct. Qed.
+
+(* ... and for EVERY shape (the wide case m < n as the code handles it: the steps i >= m reflect nothing,
+   w[i] = 0; U is m x n with orthonormal ROWS, its columns m.. are zero) *)
+Theorem C01_svd_bidiagonalisation_any_shape : forall cs minpos m n (A : @Mx R), cs_spec cs -> 0 < minpos ->
+  bd_regular minpos n (svd_bd cs m n A) ->
+  let st := fst (svd_stage1 cs minpos m n A) in
+  Uorth m n (sU st) /\ orthocols n n (sV st) /\
+  (forall i k, (i < m)%nat -> (k < n)%nat -> UBVt n (sU st) (Bd (sw st) (srv1 st)) (sV st) i k = A i k) /\
+  srv1 st 0%nat = 0 /\ orthorows n (sV st).
+Proof. exact svd_stage1_correct_gen. Qed.
+
+(* (b) One plane rotation: rotating columns p, q of U (resp. V) and rows (resp. columns) p, q of the
+   middle matrix by the same (c, s) with c^2 + s^2 = 1 leaves U B V^T unchanged and keeps the
+   columns orthonormal.  rot_cols is the loop of svd.rs. *)
+Theorem C01_svd_rotation_invariant : forall n p q c s (U B V : @Mx R), c * c + s * s = 1 -> p <> q -> (p < n)%nat -> (q < n)%nat ->
+  (forall i k, UBVt n (rotc p q c s U) (rotr p q c s B) V i k = UBVt n U B V i k) /\
+  (forall i k, UBVt n U (rotcB p q c s B) (rotc p q c s V) i k = UBVt n U B V i k) /\
+  (forall rows, orthocols rows n U -> orthocols rows n (rotc p q c s U)) /\
+  (forall rows (X : @Mx R) i j, rot_cols ROps rows p q c s X i j = if (i <? rows)%nat then rotc p q c s X i j else X i j).
+Proof.
+  intros n p q c s U B V Hcs Hpq Hp Hq. split; [|split; [|split]].
+  - intros i k. apply UBVt_rot_left; assumption.
+  - intros i k. apply UBVt_rot_right; assumption.
+  - intros rows HU. apply rotc_orthocols; assumption.
+  - intros rows X i j. apply rot_cols_spec. exact Hpq.
+Qed.
+
+(* One whole implicit-shift sweep on an unreduced block l..k (no zero inside, rv1[l] = 0,
+   rv1[k+1] = 0): orthonormality, U B(w, rv1) V^T = A and rv1[0] = 0 are preserved, nothing outside
+   the block changes.  The value of the shift plays no role for this. *)
+Theorem C01_svd_sweep_invariant : forall cs m n A l k (U V : @Mx R) w rv1, (l < k)%nat -> (k < n)%nat ->
+  SInv m n A U V w rv1 -> block_ok n l k w rv1 ->
+  let st := sweep ROps cs m n l k U V w rv1 in
+  SInv m n A (sU st) (sV st) (sw st) (srv1 st) /\
+  (forall t, (t < n)%nat -> (t < l \/ k < t)%nat -> sw st t = w t /\ srv1 st t = rv1 t) /\
+  (orthorows n V -> orthorows n (sV st)).
+Proof. exact sweep_spec. Qed.
+
+(* The cancellation loop (w[l-1] = 0 exactly, rv1[l] <> 0): same invariant, rv1[l] becomes 0 and the
+   block stays unreduced. *)
+Theorem C01_svd_cancel_invariant : forall m n A l k nm anorm (U V : @Mx R) w rv1,
+  (nm + 1 = l)%nat -> (l <= k)%nat -> (k < n)%nat -> w nm = 0 -> rv1 l <> 0 ->
+  SInv m n A U V w rv1 ->
+  (forall t, (l < t <= k)%nat -> rv1 t <> 0) -> (forall t, (l <= t < k)%nat -> w t <> 0) ->
+  ((k + 1 < n)%nat -> rv1 (k + 1)%nat = 0) ->
+  let cst := cancel ROps 0 m l k nm anorm U w rv1 in
+  SInv m n A (cU cst) V (cw cst) (crv1 cst) /\
+  (forall t, (t < l \/ k < t)%nat -> cw cst t = w t /\ crv1 cst t = rv1 t) /\
+  crv1 cst l = 0 /\
+  (forall t, (l < t <= k)%nat -> crv1 cst t <> 0) /\ (forall t, (l <= t < k)%nat -> cw cst t <> 0).
+Proof. exact cancel_spec_nz. Qed.
+
+(* PARTIAL CORRECTNESS of svd_mut in exact arithmetic, every m >= n: with the negligibility threshold
+   instantiated at eps = 0 (an entry is dropped only when it is exactly zero — with eps > 0 the code
+   drops entries of size <= eps*anorm and the factorisation holds only up to that perturbation,
+   which is a rounding-level statement and not a theorem here) and regular bidiagonal entries,
+   IF svd_mut returns THEN A = U diag(s) V^T with orthonormal U, V, s >= 0 non-increasing.
+   Termination (`Some`) within the 30 sweeps per singular value, or at all, is NOT proved: over the
+   reals the sweeps converge only in the limit, so for a generic matrix with n >= 2 the exact model
+   with eps = 0 returns None; the theorem covers every run that does return. *)
+Theorem C01_svd_factorisation_exact : forall (minpos : R) (cs : R -> R -> R) m n (A : @Mx R) st,
+  (n <= m)%nat -> 0 < minpos -> cs_spec cs ->
+  bd_regular minpos n (svd_bd cs m n A) ->
+  svd_mut ROps 0 cs minpos m n A = Some st ->
+  orthocols m n (sU st) /\ orthocols n n (sV st) /\
+  (forall i k, (i < m)%nat -> (k < n)%nat -> svd_A n (sU st) (sw st) (sV st) i k = A i k) /\
+  (forall j, (j < n)%nat -> 0 <= sw st j) /\
+  (forall a b, (a <= b)%nat -> (b < n)%nat -> sw st b <= sw st a) /\
+  orthorows n (sV st).
+Proof. exact svd_mut_correct. Qed.
+
+(* The wide case m <= n as the code handles it: U is m x n with U U^T = I_m (n > m columns cannot be
+   orthonormal), V is orthogonal, A = U diag(s) V^T, s >= 0 non-increasing. *)
+Theorem C01_svd_factorisation_exact_wide : forall (minpos : R) (cs : R -> R -> R) m n (A : @Mx R) st,
+  (m <= n)%nat -> 0 < minpos -> cs_spec cs ->
+  bd_regular minpos n (svd_bd cs m n A) ->
+  svd_mut ROps 0 cs minpos m n A = Some st ->
+  (forall a b, (a < m)%nat -> (b < m)%nat -> rsum n (fun j => sU st a j * sU st b j) = if Nat.eqb a b then 1 else 0) /\
+  orthocols n n (sV st) /\ orthorows n (sV st) /\
+  (forall i k, (i < m)%nat -> (k < n)%nat -> svd_A n (sU st) (sw st) (sV st) i k = A i k) /\
+  (forall j, (j < n)%nat -> 0 <= sw st j) /\
+  (forall a b, (a <= b)%nat -> (b < n)%nat -> sw st b <= sw st a).
+Proof. exact svd_mut_correct_wide. Qed.
+
+(* The one convergence fact that is proved: a state whose B is already diagonal (rv1 = 0) is accepted at
+   once by every iteration of the outer loop, so svd_mut returns.  Nothing is proved about convergence
+   when a sweep is actually needed. *)
+Theorem C01_svd_diagonal_accepted : forall cs m n anorm (st0 : @svd_st R),
+  (forall t, (t < n)%nat -> srv1 st0 t = 0) -> exists st nm, svd_outer cs m n anorm st0 = Some (st, nm).
+Proof. exact svd_outer_diag. Qed.
+
+(* SVD::solve end to end, for the factors svd_mut itself computes (no hypothesis on U, s, V other than
+   "svd_mut returned them"; the hypothesis on s is the rank decision of solve: every singular value is
+   above its threshold or exactly zero): the normal equations hold for A itself ... *)
+Theorem C01_svd_solve_lsq_end_to_end : forall eps minpos cs m n p (A b : @Mx R) st,
+  (n <= m)%nat -> 0 < minpos -> cs_spec cs -> bd_regular minpos n (svd_bd cs m n A) ->
+  svd_mut ROps 0 cs minpos m n A = Some st ->
+  (forall j, (j < n)%nat -> svd_tol ROps eps m n (sw st) < sw st j \/ sw st j = 0) ->
+  let X := svd_solve ROps eps m n p (sU st) (sw st) (sV st) b in
+  forall c k, (c < n)%nat -> (k < p)%nat ->
+    rsum m (fun i => A i c * (rsum n (fun t => A i t * X t k) - b i k)) = 0.
+Proof. exact svd_solve_lsq_end_to_end. Qed.
+(* ... and the solution has minimum norm among all least-squares solutions. *)
+Theorem C01_svd_solve_min_norm_end_to_end : forall eps minpos cs m n p (A b : @Mx R) st,
+  (n <= m)%nat -> 0 < minpos -> cs_spec cs -> bd_regular minpos n (svd_bd cs m n A) ->
+  svd_mut ROps 0 cs minpos m n A = Some st ->
+  (forall j, (j < n)%nat -> svd_tol ROps eps m n (sw st) < sw st j \/ sw st j = 0) ->
+  let X := svd_solve ROps eps m n p (sU st) (sw st) (sV st) b in
+  forall k (y : nat -> R), (k < p)%nat ->
+    (forall c, (c < n)%nat -> rsum m (fun i => A i c * (rsum n (fun t => A i t * y t) - b i k)) = 0) ->
+    rsum n (fun t => X t k * X t k) <= rsum n (fun t => y t * y t).
+Proof. exact svd_solve_min_norm_end_to_end. Qed.
+
+(* the hypotheses are satisfiable: for EVERY column vector (m x 1 matrix) svd_mut returns (there is no
+   super-diagonal to iterate on) and a minpos making the bidiagonal entries regular exists ... *)
+Example C01_svd_column_instance : forall cs m (A : @Mx R), cs_spec cs -> (1 <= m)%nat ->
+  exists minpos st, 0 < minpos /\ bd_regular minpos 1 (svd_bd cs m 1 A) /\
+                    svd_mut ROps 0 cs minpos m 1 A = Some st.
+Proof. exact svd_column_instance. Qed.
+(* ... for EVERY shape (tall, square, wide) the zero matrix is an instance (all skip branches) ... *)
+Example C01_svd_zero_instance : forall cs minpos m n,
+  bd_regular minpos n (svd_bd cs m n A0) /\ exists st, svd_mut ROps 0 cs minpos m n A0 = Some st.
+Proof. exact svd_zero_instance. Qed.
+(* ... and an unreduced 2 x 2 block on which a sweep is taken: B = [[1,1],[0,1]], U = V = I *)
+Example C01_svd_sweep_instance :
+  let w := fun _ : nat => 1 in let rv1 := fun t : nat => if Nat.eqb t 1 then 1 else 0 in
+  SInv 2 2 (Bd w rv1) (identity ROps) (identity ROps) w rv1 /\ block_ok 2 0 1 w rv1.
+Proof. exact svd_sweep_hyps. Qed.
+
 (* ============================ what is NOT proved (kept visible) ============================ *)
-(* The body of svd_mut (Householder bidiagonalisation, accumulation, implicit-shift QR sweeps with a
-   30-iteration cap) is transliterated in Model.v for the correspondence check only.  The intended
-   statement about it — partial correctness in exact arithmetic — is the following proposition; it is
-   NOT proved (neither convergence within 30 sweeps nor orthonormality of the accumulated U, V).  What
-   is proved about the SVD is C01_svd_post_invariant (the tail preserves exactly these properties of
-   whatever the sweeps produced) and C01_svd_solve_lsq / C01_svd_solve_min_norm (the solve is right for
-   any factors with these properties); the properties themselves are validated on every run by the
-   search oracle (svd_reconstruct, svd_U_orthonormal, svd_V_orthonormal, svd_s_ordered). *)
+(* The statement first intended for svd_mut quantifies over every eps > 0 and every minpos > 0.  In that
+   literal form it is NOT a theorem of the exact-arithmetic model, for two reasons that are visible in
+   C01_svd_factorisation_exact above: (1) with eps > 0 the split search and the cancellation loop drop
+   super-diagonal entries of size <= eps*anorm that are not zero, so A = U diag(s) V^T holds only up to
+   a perturbation of that size; (2) with minpos > 0 a bidiagonal entry 0 < |g| < minpos is treated as
+   zero by the accumulation loops (A = [[minpos/2]] gives U = [1], s = [minpos/2], V = [-1], i.e.
+   U s V^T = -A).  What is proved instead is the eps = 0 / regular-entries instance
+   (C01_svd_factorisation_exact).  What is still missing for a statement about the floating-point
+   routine: convergence within 30 sweeps, and a perturbation bound for eps > 0 and for rounding; these are
+   validated on every run by the search oracle (svd_reconstruct, svd_U_orthonormal, svd_V_orthonormal,
+   svd_s_ordered) and are not theorems. *)
 Definition C01_svd_factorisation_full_statement : Prop :=
   forall (eps minpos : R) (cs : R -> R -> R) m n (A : @Mx R) st, (n <= m)%nat -> 0 < eps -> 0 < minpos ->
     (forall a f, cs a f = if Rlt_dec f 0 then - Rabs a else Rabs a) ->
@@ -244,7 +447,13 @@ Definition C01_svd_factorisation_full_statement : Prop :=
     (forall i k, (i < m)%nat -> (k < n)%nat -> svd_A n (sU st) (sw st) (sV st) i k = A i k) /\
     (forall j, (j < n)%nat -> 0 <= sw st j) /\
     (forall a b, (a <= b)%nat -> (b < n)%nat -> sw st b <= sw st a).
-(* the part of it that is proved: IF the state handed to the tail has the properties, the result has them *)
+(* ... and the literal statement is in fact refuted by the model: A = [[1]], minpos = 2, eps = 1 returns
+   U = [1], s = [1], V = [-1] (reason (2) above) *)
+From SC Require Import C01.Proofs_svd_refute.
+Theorem C01_svd_factorisation_full_statement_refuted : ~ C01_svd_factorisation_full_statement.
+Proof. exact svd_full_statement_refuted. Qed.
+
+(* the part of the literal statement that was proved first: IF the state handed to the tail has the properties, the result has them *)
 Theorem C01_svd_factorisation_partial : forall m n (A : @Mx R) st,
   orthocols m n (sU st) -> orthocols n n (sV st) ->
   (forall i k, (i < m)%nat -> (k < n)%nat -> svd_A n (sU st) (sw st) (sV st) i k = A i k) ->
